@@ -35,6 +35,7 @@ Definition st_RotateLeft W I := [spec_rotl (gi W 0) (gi W 2) (gi I 0) (gi I 1)].
 (* W = [wa; wr] *)
 Definition st_Neg W I := [spec_neg (gi W 1) (gi I 0)].
 Definition st_Abs W I := [spec_abs (gi W 0) (gi W 1) (gi I 0)].
+Definition st_Abs_inv W I := [spec_abs (gi W 0) (gi W 1) (gi I 0); spec_sign (gi W 0) (gi I 0)].
 Definition st_Sign W I := [spec_sign (gi W 0) (gi I 0)].
 Definition st_SignExtend W I := [spec_sext (gi W 0) (gi W 1) (gi I 0)].
 Definition st_ZeroExtend W I := [spec_zext (gi W 1) (gi I 0)].
